@@ -14,6 +14,8 @@ namespace Zvt
 inductive Fault where
   | close | nack | stall
   | garbage (b : Bytes)
+  /-- the item is sent `n` pauses later than the terminal's pace would have it (`late:N`; with `gap = 0` no delay at all) -/
+  | late (n : Nat)
   deriving Repr
 
 structure ConnSt where
@@ -125,6 +127,7 @@ def releaseItems : Nat → World → ConnSt → World × ConnSt
         | none => releaseItems n w (c.put item)
         | some .nack => releaseItems n w (c.put [0x84, 0x9c, 0x00])
         | some (.garbage g) => releaseItems n w (c.put g)
+        | some (.late k) => releaseItems n w ({ c with carry := c.carry + k }.put item)
         | some .stall => (w, { c with stalled := true, pending := [] })
         | some .close =>
           (w.log c.id (.tclose (w.now + w.gap * (c.marks.sum + c.carry + 1))),
